@@ -3,7 +3,8 @@
 (* G1 generator for C01 / C02 (MC_EffectCombos): every one-action problem  *)
 (* whose action has up to MaxEff effects drawn from a menu that crosses    *)
 (*   effect kind      assign constant / assign fluent / increase / decrease *)
-(*   target           Boolean b, unary Boolean p(x), bounded int n,        *)
+(*   target           Boolean b, unary Boolean p(x), bounded int n, unary  *)
+(*                    int c(x) / c(y) with two parameters that may alias,  *)
 (*                    object-valued fluent loc, parametrised target p(par) *)
 (*   condition        none / true in the initial state / false / reads an  *)
 (*                    undefined fluent                                     *)
@@ -70,6 +71,10 @@ Menu ==
    \cup {Eff("assign", "loc", <<>>, Obj("o2"), Conds[i], <<>>) : i \in {1, 2}}
    \cup {Eff("assign", "loc", <<>>, Par("x"), TRUE_E, <<>>)}
    \cup {Eff("assign", "p", <<F0("loc")>>, C(BV(TRUE)), TRUE_E, <<>>)}
+   \* two parameters that may denote the same object (a(o1, o1)): effects on c(x) and c(y), p(x) and p(y)
+   \cup {Eff("inc", "c", <<Par("x")>>, C(NV(1)), TRUE_E, <<>>), Eff("inc", "c", <<Par("y")>>, C(NV(1)), TRUE_E, <<>>)}
+   \cup {Eff("assign", "c", <<Par("y")>>, C(NV(2)), TRUE_E, <<>>), Eff("dec", "c", <<Par("y")>>, C(NV(1)), F0("q"), <<>>)}
+   \cup {Eff("assign", "p", <<Par("y")>>, C(BV(TRUE)), TRUE_E, <<>>)}
 
 Invs == << <<>>, <<Le(F0("n"), C(NV(2)))>>, <<Or2(F0("b"), F1("p", Obj("o1")))>>, <<Not(F1("p", F0("loc")))>> >>
 
@@ -80,7 +85,8 @@ Fluents == <<
    [name |-> "p", type |-> BoolT, sig |-> <<[name |-> "x", type |-> TT]>>, default |-> BV(FALSE)],
    [name |-> "n", type |-> IntB, sig |-> <<>>, default |-> NV(1)],
    [name |-> "m", type |-> IntU, sig |-> <<>>, default |-> NV(2)],
-   [name |-> "loc", type |-> TT, sig |-> <<>>, default |-> OV("o1")] >>
+   [name |-> "loc", type |-> TT, sig |-> <<>>, default |-> OV("o1")],
+   [name |-> "c", type |-> IntU, sig |-> <<[name |-> "x", type |-> TT]>>, default |-> NV(0)] >>
 
 Inits == << <<>>,
             <<[f |-> "b", args |-> <<>>, v |-> BV(TRUE)], [f |-> "n", args |-> <<>>, v |-> NV(3)],
@@ -95,7 +101,7 @@ Problem(effs, inv, init) ==
     objects |-> <<[name |-> "o1", type |-> "T"], [name |-> "o2", type |-> "T"]>>,
     fluents |-> Fluents,
     init |-> init,
-    actions |-> <<[name |-> "a", kind |-> "inst", params |-> <<[name |-> "x", type |-> TT]>>,
+    actions |-> <<[name |-> "a", kind |-> "inst", params |-> <<[name |-> "x", type |-> TT], [name |-> "y", type |-> TT]>>,
                    pre |-> <<>>, effects |-> effs, conds |-> <<>>, dur |-> NONE, sim |-> FALSE]>>,
     goals |-> <<F0("b")>>,
     invariants |-> inv, traj |-> <<>>, timed_goals |-> <<>>, timed_effects |-> <<>>,
